@@ -96,7 +96,8 @@ where
     fn poll_next(self: Pin<&mut Self>, cx: &mut Context<'_>) -> Poll<Option<Self::Item>> {
         match ready!(self.project().inner.poll_next(cx)) {
             Some(Ok(buf)) => Poll::Ready(Some(Ok(Inflate::new(buf)))),
-            Some(Err(e)) => Poll::Ready(Some(Err(e))),
+            // Queue the error behind the blocks that precede it.
+            Some(Err(e)) => Poll::Ready(Some(Ok(Inflate::from_error(e)))),
             None => Poll::Ready(None),
         }
     }
